@@ -26,6 +26,7 @@ type tcase struct {
 	Items    []item `json:"items"`
 	Chunks   []int  `json:"chunks"`
 	Callback bool   `json:"callback"`
+	Mapped   bool   `json:"mapped"` // use EnableMapping (the default callbacks) and return the encoded source map
 }
 
 type mapping struct {
@@ -43,6 +44,7 @@ type result struct {
 	Panic    string    `json:"panic"`
 	N        []int     `json:"n"`
 	EncErr   string    `json:"enc_err"`
+	SrcMap   string    `json:"srcmap"`
 }
 
 func run(tc tcase) (res result) {
@@ -90,9 +92,16 @@ func run(tc tcase) (res result) {
 
 	out := &bytes.Buffer{}
 	fset := token.NewFileSet()
-	fset.AddFile("verif.go", 1, 1<<24)
+	tf := fset.AddFile("verif.go", 1, 1<<24)
+	lines := make([]int, 0, (1<<24)/64)
+	for o := 0; o < 1<<24; o += 64 {
+		lines = append(lines, o)
+	}
+	tf.SetLines(lines) // offset o is line o/64+1, column o%64+1
 	f := &sourcemapx.Filter{Writer: out, FileSet: fset}
-	if tc.Callback {
+	if tc.Mapped {
+		f.EnableMapping("out.js", "/goroot", "/gopath", true)
+	} else if tc.Callback {
 		f.VerifSetGoCallback(func(l, c int, p token.Position, name string) {
 			res.Maps = append(res.Maps, mapping{Line: l, Col: c, Offset: p.Offset, Name: name})
 		})
@@ -124,6 +133,13 @@ func run(tc tcase) (res result) {
 		}
 	}()
 	res.Out = hex.EncodeToString(out.Bytes())
+	if tc.Mapped && res.Panic == "" {
+		sm := &bytes.Buffer{}
+		if err := f.WriteMappingTo(sm); err != nil {
+			res.Panic = "WriteMappingTo: " + err.Error()
+		}
+		res.SrcMap = sm.String()
+	}
 	return
 }
 
